@@ -265,7 +265,7 @@ pub fn run(ctx: &mut Ctx) {
     let cases = ctx.tier.pick(600_000u64, 5_000_000u64);
     ctx.pbt("c16-random", cases, 160, |t, st| {
         let mode = gen_mode(t);
-        let (pts, class) = gen_points(t, 12, true);
+        let (pts, class) = gen_points_ex(t, 12, true, true);
         st.label(&format!("coords:{class:?}"));
         let nd = Curve::new(mode, &pts, None, &mut CurveBuffers::default()).dist();
         let ls = lengths_for(t, nd);
@@ -291,7 +291,7 @@ pub fn replay(ctx: &mut Ctx, ext: &str, bytes: &[u8]) -> Result<Option<String>, 
     let (mode, pts, ls) = if ext == "tape" {
         let mut t = Tape::new(bytes);
         let mode = gen_mode(&mut t);
-        let (pts, _) = gen_points(&mut t, 12, true);
+        let (pts, _) = gen_points_ex(&mut t, 12, true, true);
         let nd = Curve::new(mode, &pts, None, &mut CurveBuffers::default()).dist();
         let ls = lengths_for(&mut t, nd);
         (mode, pts, ls)
